@@ -1,5 +1,147 @@
-import Smooth.Model.Surface
+/-
+C11 — Simplification terminates in a rule-free form, without cycles.
+
+"simplification never cycles and never grows an expression without bound: from every expression the
+successive rewrite steps reach, without ever revisiting an earlier form, a form to which no rewrite
+rule applies."
+
+`stepF N e` is one call of `_take_reduction_step`; `stepE N e = (stepF N e).1` the expression it
+returns.  `mu : Expr α → ℕ ×ₗ ℕ ×ₗ ℕ ×ₗ ℕ ×ₗ ℕ` (Proofs/MeasureDefs) is a measure into a well-order,
+independent of every number (so everything here holds for every number record `N`: reals, exact
+rationals, doubles) and of how the flags inside the expression are set.
+-/
+import Smooth.Proofs.Settled
+
 namespace Smooth
-/-- placeholder while the property file is being written -/
-theorem C11_placeholder : (1 : Nat) = 1 := rfl
+open Expr
+variable {α : Type}
+
+/-- **C11 (measure).**  Every step on an unflagged expression — constant folding, a step inside the
+first unflagged child, any of the 46 rules at the node, or flagging — strictly decreases `mu` in the
+lexicographic order, which is well-founded. -/
+theorem mu_step_lt (N : Num α) (e : Expr α) (h : e.isRed = false) :
+    mu (stepF N e).1 < mu e :=
+  mu_stepE_lt N e h
+
+/-- the order the measure lives in has no infinite descending chain -/
+theorem mu_wellFounded :
+    WellFounded (fun a b : ℕ ×ₗ ℕ ×ₗ ℕ ×ₗ ℕ ×ₗ ℕ => a < b) :=
+  wellFounded_lt
+
+/-- **C11 (no cycle).**  As long as the form reached after `i` steps is unflagged, every later form
+is strictly smaller, hence different: no earlier form is ever revisited.  (Once the root is flagged
+`stepF` returns its argument unchanged — `stepF_of_isRed` — which is the loop's exit, not a cycle.) -/
+theorem no_cycle (N : Num α) (e : Expr α) (i j : Nat) (hij : i < j)
+    (hi : ((stepE N)^[i] e).isRed = false) :
+    mu ((stepE N)^[j] e) < mu ((stepE N)^[i] e) ∧ (stepE N)^[j] e ≠ (stepE N)^[i] e := by
+  have h := mu_iterate_lt N e i hi j hij
+  exact ⟨h, fun heq => absurd (heq ▸ h) (lt_irrefl _)⟩
+
+/-- **C11 (termination).**  From every expression finitely many steps reach a flagged form. -/
+theorem terminates (N : Num α) (e : Expr α) : ∃ k, ((stepE N)^[k] e).isRed = true :=
+  exists_iterate_isRed N e
+
+/-- hence `_fully_reduce`'s loop, given a large enough budget, ends without the warning, on a
+flagged expression -/
+theorem fullyReduce_terminates (N : Num α) (e : Expr α) :
+    ∃ K, ∀ bound, K ≤ bound →
+      (fullyReduceWith N bound e).warned = false ∧ (fullyReduceWith N bound e).expr.isRed = true := by
+  obtain ⟨k, hk⟩ := terminates N e
+  exact ⟨k + 1, fun bound hb => fullyReduceLoop_of_iterate N k bound e 0 [] hk (by omega)⟩
+
+/-- **C11 (rule-free).**  When a step flags the root (the event that ends the loop), no rewrite rule
+of the root's class applies to the returned expression. -/
+theorem flagged_root_rule_free (N : Num α) (e : Expr α) (h : e.isRed = false)
+    (hev : (stepF N e).2 = .flag) (hred : (stepF N e).1.isRed = true) :
+    firstRule N (stepF N e).1 (reducers (stepF N e).1) = none :=
+  stepF_flag_red N e h hev hred
+
+/-- in particular none of the 46 rules, individually -/
+theorem flagged_root_no_rule (N : Num α) (e : Expr α) (h : e.isRed = false)
+    (hev : (stepF N e).2 = .flag) (hred : (stepF N e).1.isRed = true) :
+    ∀ r ∈ reducers (stepF N e).1, r.apply N (stepF N e).1 = none :=
+  firstRule_none N _ _ (flagged_root_rule_free N e h hev hred)
+
+/-- the individual rules all decrease the measure, in every expression -/
+theorem every_rule_decreases (N : Num α) (r : RuleId) (e e' : Expr α)
+    (h : r.apply N e = some e') : mu e' < mu e :=
+  (mu_lt_iff _ _).mpr (rule_decreases N r h)
+
+/-- "never grows without bound": the sequence of forms is eventually constant, so only finitely many
+forms (pairwise different up to that point, by `no_cycle`) are ever visited -/
+theorem eventually_constant (N : Num α) (e : Expr α) :
+    ∃ k, ((stepE N)^[k] e).isRed = true ∧ ∀ j, k ≤ j → (stepE N)^[j] e = (stepE N)^[k] e := by
+  obtain ⟨k, hk⟩ := terminates N e
+  exact ⟨k, hk, iterate_const_of_isRed N e k hk⟩
+
+/-! ### rule-free everywhere
+
+`Settled N e` (Proofs/Settled): every flagged node of `e`, at any depth, has no applicable rule of its
+class and only flagged children — "the flags are honest".  Expressions without flags, as the
+constructors build them, are settled (`settled_fresh`), and every step keeps an expression settled
+(`step_settled`).  `Sub s e`: `s` is a node of `e`. -/
+
+theorem step_settled (N : Num α) (e : Expr α) (hs : Settled N e) : Settled N (stepF N e).1 :=
+  stepF_settled N e hs
+
+theorem fresh_settled (N : Num α) (e : Expr α) : Settled N e.fresh := settled_fresh N e
+
+/-- **C11 (rule-free, everywhere).**  From a settled expression the steps reach a form in which every
+node is flagged and no rule of its class applies at any node. -/
+theorem reaches_rule_free (N : Num α) (e : Expr α) (hs : Settled N e) :
+    ∃ k, ∀ s, Sub s ((stepE N)^[k] e) →
+      s.isRed = true ∧ ∀ r ∈ reducers s, r.apply N s = none := by
+  obtain ⟨k, hk⟩ := terminates N e
+  refine ⟨k, fun s hsub => ?_⟩
+  obtain ⟨h1, h2⟩ := (iterate_settled N hs k).all_of_isRed hk s hsub
+  exact ⟨h1, firstRule_none N s _ h2⟩
+
+/-- the same for `_fully_reduce` with a large enough budget: no warning, and the result is flagged
+and rule-free at every node -/
+theorem fullyReduce_rule_free (N : Num α) (e : Expr α) (hs : Settled N e) :
+    ∃ K, ∀ bound, K ≤ bound →
+      (fullyReduceWith N bound e).warned = false ∧
+      ∀ s, Sub s (fullyReduceWith N bound e).expr →
+        s.isRed = true ∧ ∀ r ∈ reducers s, r.apply N s = none := by
+  obtain ⟨K, hK⟩ := fullyReduce_terminates N e
+  refine ⟨K, fun bound hb => ?_⟩
+  obtain ⟨hw, hr⟩ := hK bound hb
+  refine ⟨hw, fun s hsub => ?_⟩
+  obtain ⟨h1, h2⟩ := (fullyReduceLoop_settled N bound e 0 [] hs hw).all_of_isRed hr s hsub
+  exact ⟨h1, firstRule_none N s _ h2⟩
+
+/-! Non-vacuity. -/
+
+/-- `mu_step_lt`, `no_cycle`: unflagged expressions exist, and a step does change them
+(here `-(-x)`: the first step goes down to the leaf and flags it) -/
+example (N : Num α) :
+    (mkNeg (mkNeg (mkVar "x")) : Expr α).isRed = false ∧
+      stepE N (mkNeg (mkNeg (mkVar "x"))) = mkNeg (mkNeg (.var { red := true } "x")) := by
+  constructor <;> rfl
+
+/-- `flagged_root_rule_free`: a non-leaf step that ends in a flag event on a flagged root -/
+example (N : Num α) :
+    let e : Expr α := .sin {} (.var { red := true } "x")
+    e.isRed = false ∧ (stepF N e).2 = .flag ∧ (stepF N e).1.isRed = true := by
+  refine ⟨rfl, ?_, ?_⟩ <;> rfl
+
+/-- a rule step that the measure accounts for: `-(-x)` with flagged children rewrites to `x`, a
+flagged root reached by a `rule` event (covered by `reaches_rule_free`, not by
+`flagged_root_rule_free`) -/
+example (N : Num α) :
+    stepF N (.neg {} (.neg { red := true } (.var { red := true } "x")) : Expr α) =
+      (.var { red := true } "x", .rule .negNeg) := by
+  rfl
+
+/-- `reaches_rule_free`, `fullyReduce_rule_free`: settled expressions exist — every expression
+without flags, e.g. `x - (-(x * y))` — and a whole run can be followed: `-(-x)` reaches `x` in
+three steps (flag `x`, flag `-x`, rule `negNeg`; the root is then the flagged `x`) -/
+example (N : Num α) :
+    Settled N (mkMinus (mkVar "x") (mkNeg (mkMul [mkVar "x", mkVar "y"])) : Expr α) :=
+  fresh_settled N (mkMinus (mkVar "x") (mkNeg (mkMul [mkVar "x", mkVar "y"])))
+
+example (N : Num α) :
+    (stepE N)^[3] (mkNeg (mkNeg (mkVar "x")) : Expr α) = .var { red := true } "x" := by
+  rfl
+
 end Smooth
